@@ -1,4 +1,5 @@
 import Smpl.Model.AkaiTool
+import Smpl.Model.RolandTool
 import Smpl.Model.Container
 import Smpl.Model.Cdda
 import Smpl.Drv.Util
@@ -29,8 +30,14 @@ def textLines (bs : List Nat) : List (List Char) :=
     | c :: rest => split (c :: cur) acc rest
   split [] [] (norm bs)
 
+/-- a ByteArray-backed image (no 3 MB list for raw Roland files). -/
+def imgOfByteArray (b : ByteArray) : Smpl.Roland.Img :=
+  { size := b.size,
+    rd := fun off n => if off + n ≤ b.size then some ((b.extract off (off + n)).toList.map (·.toNat)) else none }
+
 inductive Opened where
   | image (view : List Nat)            -- a sampler image (after unwrapping)
+  | rawImage (b : ByteArray)           -- the same, not wrapped in any container: kept as a byte array
   | cdda
   | unreadable (msg : String)
 
@@ -49,7 +56,11 @@ def openImage (file : String) : IO Opened := do
         let bdata := (← IO.FS.readBinFile bin).toList.map (·.toNat)
         pure (.image (Smpl.Container.view bdata))
     | .error _ => pure (.image (Smpl.Container.view data))
-  else pure (.image (Smpl.Container.view data))
+  else
+    let raw ← IO.FS.readBinFile file
+    let head := (raw.extract 0 64).toList.map (·.toNat)
+    if Smpl.Container.detectWrap head == .raw then pure (.rawImage raw)
+    else pure (.image (Smpl.Container.view data))
 
 /-- programs are recognised by a separate model; until it is linked in, a program parses iff … -/
 def akaiOp (programOk : List Nat → Bool) (toks : List String) : IO String := do
@@ -72,9 +83,41 @@ def akaiOp (programOk : List Nat → Bool) (toks : List String) : IO String := d
     match pathHexes.mapM hexToChars with
     | none => pure "bad-op"
     | some paths =>
-      match ← openImage file with
+      let opened ← openImage file
+      let rimg : Option Smpl.Roland.Img := match opened with
+        | .rawImage b => some (imgOfByteArray b)
+        | .image v => some (Smpl.Roland.Img.ofBytes v)
+        | _ => none
+      match rimg with
+      | some ri =>
+        if Smpl.Roland.isRoland ri then
+          match Smpl.Roland.tree ri with
+          | .error e => return ("err " ++ toString e)
+          | .ok vols =>
+            let ex := match Smpl.RolandTool.exportOf ri vols with
+              | .error e => "err " ++ toString e
+              | .ok files => "ok " ++ " ; ".intercalate (files.map showExported)
+            let lss := paths.map fun p =>
+              match Smpl.RolandTool.lsOf vols p with
+              | .error e => "err " ++ toString e
+              | .ok lines => "ok " ++ " ".intercalate (lines.map charsToHex)
+            return (" || ".intercalate (ex :: lss))
+      | none => pure ()
+      match opened with
       | .cdda => pure "cdda"
       | .unreadable m => pure ("unreadable " ++ m)
+      | .rawImage b =>
+        match tree (b.toList.map (·.toNat)) programOk with
+        | .error e => pure ("err " ++ toString e)
+        | .ok parts =>
+          let ex := match exportOf parts with
+            | .error e => "err " ++ toString e
+            | .ok files => "ok " ++ " ; ".intercalate (files.map showExported)
+          let lss := paths.map fun p =>
+            match lsOf parts p with
+            | .error e => "err " ++ toString e
+            | .ok lines => "ok " ++ " ".intercalate (lines.map charsToHex)
+          pure (" || ".intercalate (ex :: lss))
       | .image view =>
       match tree view programOk with
       | .error e => pure ("err " ++ toString e)
